@@ -411,6 +411,17 @@ func (s *MemoryStore) RevokeAccessToken(ctx context.Context, requestID string) e
 			return err
 		}
 	}
+
+	// The index above only remembers the most recent access token of a request. An authorization can own
+	// more than one (the OpenID Connect hybrid flow issues one at the authorization endpoint and another
+	// one when the code is redeemed), and revoking by request ID must remove all of them.
+	s.accessTokensMutex.Lock()
+	defer s.accessTokensMutex.Unlock()
+	for signature, req := range s.AccessTokens {
+		if req.GetID() == requestID {
+			delete(s.AccessTokens, signature)
+		}
+	}
 	return nil
 }
 
